@@ -188,15 +188,27 @@ def main(argv=None):
         exhaustive = []
         inconclusive = []
         harness_errors = []
+        crashed = {}
         for i in range(nshards):
             path = os.path.join(scratch, "shard%02d.json" % i)
             if not os.path.exists(path):
                 if i in stalled:
                     inconclusive.append("shard %d killed by the stall watchdog" % i)
                     continue
+                rc = procs[i].returncode
+                cur = ""
+                try:
+                    with open(os.path.join(scratch, "current%02d" % i)) as f:
+                        cur = f.read()
+                except OSError:
+                    pass
+                if rc is not None and rc < 0 and cur.strip() not in ("", "{}"):
+                    # the interpreter itself died (e.g. SIGSEGV from unbounded C-level recursion) while running this case
+                    crashed[i] = (rc, cur)
+                    continue
                 with open(os.path.join(scratch, "log%02d" % i)) as f:
                     tail = f.read()[-3000:]
-                harness_errors.append("shard %d died without a result (rc=%s)\n%s" % (i, procs[i].returncode, tail))
+                harness_errors.append("shard %d died without a result (rc=%s)\n%s" % (i, rc, tail))
                 continue
             with open(path) as f:
                 r = json.load(f)
@@ -229,6 +241,28 @@ def main(argv=None):
                     if fl["size"] < cur["size"]:
                         failures[b] = fl
                     failures[b]["count"] = cnt
+        # ---- shards killed by a signal: re-run the announced case alone; dying again is a violation ------
+        for i, (rc, case_txt) in sorted(crashed.items())[:3]:
+            try:
+                case = json.loads(case_txt)
+            except ValueError:
+                harness_errors.append("shard %d died with signal %d; announced case unreadable" % (i, -rc))
+                continue
+            cf = os.path.join(scratch, "crash%02d.json" % i)
+            with open(cf, "w") as f:
+                json.dump(dict(case=case), f)
+            try:
+                r2 = subprocess.run([sys.executable, "-W", "ignore", "-m", "vf.main", prop, "--replay", cf, "--tier", a.tier,
+                                     "--seed", str(seed)], stdout=subprocess.DEVNULL, stderr=subprocess.DEVNULL, timeout=2 * stall_s)
+                rc2 = r2.returncode
+            except subprocess.TimeoutExpired:
+                rc2 = None
+            if rc2 is not None and rc2 < 0:
+                failures.setdefault("crash:interpreter-killed-by-signal-%d" % -rc2, dict(
+                    case=case, detail="the worker died with signal %d on this case, and again when it was re-run alone" % -rc,
+                    size=len(case_txt), count=0))["count"] += 1
+            else:
+                inconclusive.append("shard %d died with signal %d on a case that did not kill the interpreter when re-run alone" % (i, -rc))
         # ---- stalled cases: confirm alone (in parallel, at most 4 distinct cases) ------------
         confirm = []
         seen_cases = set()
